@@ -60,6 +60,16 @@ static void body(void) {
             (int)m->yloadings->row == ny && (int)m->yloadings->col == A && (int)m->xweights->row == p && (int)m->xweights->col == A;
   vx_check(shp, KEY("shape", "PLS", cny), "dimensions of model / predictions for n=%d p=%d ny=%d nlv=%d", n, p, ny, A);
   if (!shp) { vx_outcome(1); return; }
+  /* the score-based predictor itself, PLSYPredictor(scores, a), scanned over a = 1..A and then back down into ONE output
+   * matrix that is reused from call to call (the way a caller scans the number of latent variables): every call must give
+   * what the all-LV predictor stores for that a, whatever the output matrix held before */
+  { matrix *yre; initMatrix(&yre); double wre = 0; int are = 0;
+    for (int pass = 0; pass < 2; pass++) for (int a = pass ? A : 1; pass ? a >= 1 : a <= A; a += pass ? -1 : 1) {
+      PLSYPredictor(tz, m, (size_t)a, yre); vx_transition(1);
+      if ((int)yre->row != NZ || (int)yre->col != ny) { wre = INFINITY; are = a; break; }
+      for (int i = 0; i < NZ; i++) for (int j = 0; j < ny; j++) { double d = fabs(yre->data[i][j] - ypZ->data[i][ny * (a - 1) + j]) / (DBL_MIN + 64 * DEPS * (fabs(ypZ->data[i][ny * (a - 1) + j]) + 1e-300)); if (!(d <= wre)) { wre = d; are = a; } } }
+    vx_check(wre <= 1, KEY("reuse", "PLSYPredictor", cny), "a=%d: PLSYPredictor into a reused output matrix differs from PLSYPredictorAllLV's column block by %g allowances (64 eps relative)", are, wre);
+    DelMatrix(&yre); }
   int fin = hm_allfinite(m->xscores) && hv_allfinite(m->b) && hm_allfinite(m->recalculated_y) && hm_allfinite(ypX) && hm_allfinite(ypZ) && hm_allfinite(m->yloadings) && hm_allfinite(m->xweights) && hm_allfinite(m->xloadings);
   vx_check(fin, KEY("finite", "PLS", cny), "non-finite model field or prediction (n=%d p=%d ny=%d xs=%d ys=%d)", n, p, ny, xs, ys);
   if (!fin) { vx_outcome(2); return; }
